@@ -119,6 +119,9 @@ func runC03(r *Run) {
 	}
 	rawMode := t.Pct(12) // raw byte strings: mutated valid stream / noise
 	limitOff := t.Draw(2) == 0
+	if rawMode {
+		limitOff = true // a mutated compressed message may inflate to anything; the limit is C08's subject
+	}
 	maxLen := 32768
 	if limitOff {
 		rc.C.SetReadLimit(-1)
@@ -238,6 +241,12 @@ func runC03(r *Run) {
 	r.D("violations", violDesc)
 	r.D("expect", fmt.Sprintf("%d msgs, %d pings, terminal=%s %s code=%d", len(ex.Msgs), len(ex.Pings), ex.Terminal, ex.What, ex.Code))
 	r.D("stream_len", len(stream))
+	var lens []int
+	for _, m := range ex.Msgs {
+		lens = append(lens, len(m.Payload))
+	}
+	r.D("expected_msg_lens", lens)
+	r.D("limit_off", limitOff)
 	if len(stream) <= 256 {
 		r.D("stream_hex", fmt.Sprintf("%x", stream))
 	}
@@ -381,7 +390,7 @@ func runC03(r *Run) {
 		}
 		if len(closes) == 0 {
 			if !ex.DontCareContent {
-				r.Violate("close-not-echoed", sig, "peer's Close(%d) was not echoed", ex.Code)
+				r.Violate("close-not-echoed", sig, "peer's Close(%d) was not echoed; read error: %v; %d messages read", ex.Code, rerr, len(msgs))
 			}
 		} else {
 			want := wsref.ClosePayload(ex.Code, ex.Reason)
